@@ -18,7 +18,7 @@ func init() {
 		&Rule{ID: "R06.1", Props: []string{"C06"}, Floor: 1, Title: "StatusAll returns only entries whose status matches the filter (final filter)", Run: r061},
 		&Rule{ID: "R06.2", Props: []string{"C06"}, Floor: 5, Title: "localStatus: the filter shortcut masks cover every status the guarded regions produce; each arm assigns the status it tested", Run: r062},
 		&Rule{ID: "R06.3", Props: []string{"C06"}, Floor: 16, Title: "Operation.ToTrackerStatus is total over (type, phase) and maps each pair into the class the property names", Run: r063},
-		&Rule{ID: "R06.4", Props: []string{"C06"}, Floor: 4, Title: "Status and StatusAll classify 'in the pinset, not on IPFS' in the same class and decide meta before remote before IPFS", Run: r064},
+		&Rule{ID: "R06.4", Props: []string{"C06", "C05"}, Floor: 4, Title: "Status and StatusAll classify 'in the pinset, not on IPFS' in the same class and decide meta before remote before IPFS", Run: r064},
 		&Rule{ID: "R05.7", Props: []string{"C05", "C06"}, Floor: 1, Title: "the listing StatusAll/RecoverAll work from is interpreted soundly: presence in the listing means 'pinned here' only for a recursive-only listing, a wider listing is compared with each pin's mode", Run: r057},
 		&Rule{ID: "R06.5", Props: []string{"C06"}, Floor: 1, Title: "the IPFS listing used by StatusAll covers every pin mode the per-CID view understands", Run: r065},
 		&Rule{ID: "R06.6", Props: []string{"C06"}, Floor: 2, Title: "GlobalPinInfo holds one entry per peer: PeerMap is a map keyed by the peer and Add is its only writer", Run: r066},
